@@ -5,7 +5,8 @@
 //!             two-slot hand whose other slot is fixed); all arrangements of sizes 2..7 over a 12-word alphabet
 //!             (7 real cards >= hand size, so every equality pattern and every relative order occurs; blank; four
 //!             near-miss words); the duplicate family (every size, every slot pair, every card) and every card
-//!             in every slot of an otherwise valid hand
+//!             in every slot of an otherwise valid hand; EVERY valid five-, six- and seven-card hand (canonical
+//!             order): reported valid, validated value == unvalidated value == oracle
 //!   thorough: additionally every size x every slot x all 2^32 words in that slot of an otherwise valid hand
 //!             (27 sweeps), all arrangements over a 16-word alphabet, both build profiles
 //! Oracle: valid <=> all slots are layout words and pairwise distinct; validated value = 0 <=> not valid, else the
@@ -178,7 +179,7 @@ fn check_hand(acc: &mut Acc, w: &[u32], with_rank: bool) {
                 }
             }
             if !found {
-                monitor::machinery_fail(&format!("C04 fast path mismatch on {:?} not reproduced by the judge", w));
+                super::unreproduced(&format!("C04 fast path mismatch on {:?} not reproduced by the judge", w));
             }
         }
     }
@@ -249,7 +250,7 @@ pub fn run(ctx: &Ctx, rep: &mut Report) {
                     }
                 }
                 if stored == 0 {
-                    monitor::machinery_fail("C04 recogniser mismatch not reproduced");
+                    super::unreproduced("C04 recogniser mismatch not reproduced");
                 }
                 acc.viol_count = acc.viol_count.max(nbad);
             }
@@ -353,6 +354,68 @@ pub fn run(ctx: &Ctx, rep: &mut Report) {
         acc.nontrivial = acc.cases;
         rep.guard("duplicate family: valid and duplicate-only-invalid hands both present", acc.hist[0] > 0 && acc.hist[2] > 0, format!("{:?}", acc.hist));
         rep.add_space("duplicate family + every card in every slot", &acc, t0, "every size, every slot pair holding the same card (each of the 52), remaining slots distinct cards; every card in every slot of an otherwise valid hand");
+    }
+
+    // (3b) every valid hand of five, six and seven cards (canonical order): reported valid, and validated ranking equals
+    //      unvalidated ranking equals the rule-derived best-of-n ordinal
+    for n in 5..=7usize {
+        let t0 = Instant::now();
+        let kind = monitor::kind_id("valid-hand");
+        let mut parts = Vec::new();
+        for a in 0..52usize {
+            for b in a + 1..52 {
+                if b + (n - 2) < 52 {
+                    parts.push((a, b));
+                }
+            }
+        }
+        let accs = par_parts(parts.len(), |pi| {
+            let (a, b) = parts[pi];
+            let mut acc = Acc::new(3);
+            let mut w = vec![0u32; n];
+            let mut cs = vec![Card(0); n];
+            crate::engine::enumerate::combos_prefix(52, n, &[a, b], &mut |idx| {
+                for i in 0..n {
+                    cs[i] = d[idx[i]];
+                    w[i] = cs[i].word();
+                }
+                let w64: Vec<u64> = w.iter().map(|x| *x as u64).collect();
+                monitor::beat(kind, &w64);
+                acc.cases += 1;
+                acc.hist[0] += 1;
+                let exp = oracle().best_by_rules(&cs);
+                // quick tier, seven cards: validity + the validated value against the oracle (that the unvalidated value equals
+                // the oracle on every hand is C02's sweep); everything else: all three ranking forms
+                let lean = n == 7 && !thorough;
+                acc.calls += if lean { 2 } else { 4 };
+                let ok = matches!(guard(|| {
+                    let h = AnyHand::from_words(&w);
+                    if lean {
+                        (h.is_valid(), h.value_validated().unwrap(), exp, exp)
+                    } else {
+                        (h.is_valid(), h.value_validated().unwrap(), h.rank_entry("hand_rank_validated.value").unwrap(), h.value().unwrap())
+                    }
+                }), Ok((true, v1, v2, v3)) if v1 == exp && v2 == exp && v3 == exp);
+                if !ok {
+                    let size = AnyHand::size_name(n);
+                    let mut found = false;
+                    for k in ["is_valid", "are_unique", "is_corrupt", "hand_rank_value_validated", "hand_rank_validated.value"] {
+                        if let Some(v) = super::confirm(judge, Case::w32(&format!("{}.{}", size, k), &w)) {
+                            found = true;
+                            acc.violate(v);
+                        }
+                    }
+                    if !found {
+                        super::unreproduced(&format!("C04 valid-hand mismatch on {:?} not reproduced by the judge", w));
+                    }
+                }
+            });
+            acc
+        });
+        let mut acc = Acc::merged(accs);
+        acc.nontrivial = acc.cases;
+        rep.guard(&format!("all C(52,{}) valid hands visited", n), acc.cases == crate::engine::enumerate::choose(52, n as u64), format!("{}", acc.cases));
+        rep.add_space(&format!("every valid {}-card hand (canonical order): valid, validated == unvalidated == oracle", n), &acc, t0, "the complete set of hands that must NOT rank 0");
     }
 
     // (4) thorough: every slot x all 2^32 words
